@@ -560,6 +560,14 @@ class SymRange:
             return iter(builtins.range(*[int(x) for x in self.args]))
         raise Undecided('iteration over a symbolic range without a loop invariant')
 
+    def length(self):
+        if len(self.args) != 1:
+            raise Undecided('symbolic range with start/step')
+        return self.args[0]
+
+    def element(self, i):
+        return i
+
 
 def sym_range(*a):
     if any(isinstance(x, T) and x.op != 'const' for x in a):
@@ -651,6 +659,13 @@ class _AssignedNames(ast.NodeVisitor):
             self._add(node.value.id)
         self.generic_visit(node)
 
+    def visit_Call(self, node):
+        # x.append(...) etc. mutate the object bound to x (only when the list transform is on)
+        if MUTATING_METHODS[0] and isinstance(node.func, ast.Attribute) and isinstance(node.func.value, ast.Name) \
+                and node.func.attr in ('append', 'extend', 'insert', 'pop', 'remove', 'clear', 'sort', 'reverse', 'update', 'add'):
+            self._add(node.func.value.id)
+        self.generic_visit(node)
+
     def visit_FunctionDef(self, node):
         self._add(node.name)       # do not descend
 
@@ -661,6 +676,31 @@ class _AssignedNames(ast.NodeVisitor):
         pass
 
     visit_GeneratorExp = visit_SetComp = visit_DictComp = visit_ListComp
+
+
+MUTATING_METHODS = [False]
+
+
+class _ListForms(ast.NodeTransformer):
+    """mechanical rewriting of list displays (opt-in, ``lists=True``):
+       []                                   ->  __vc__.newlist()
+       [elt for a in A for b in B]          ->  __vc__.listcomp(lambda a, b: elt, [lambda: A, lambda a: B])
+    (comprehensions with conditions are left alone)"""
+
+    def visit_List(self, node):
+        self.generic_visit(node)
+        if not node.elts and isinstance(node.ctx, ast.Load):
+            return ast.copy_location(_call('newlist'), node)
+        return node
+
+    def visit_ListComp(self, node):
+        self.generic_visit(node)
+        if any(g.ifs or g.is_async or not isinstance(g.target, ast.Name) for g in node.generators):
+            return node
+        names = [g.target.id for g in node.generators]
+        mk = lambda ns, body: ast.Lambda(args=ast.arguments(posonlyargs=[], args=[ast.arg(arg=n) for n in ns], kwonlyargs=[], kw_defaults=[], defaults=[]), body=body)
+        its = ast.List(elts=[mk(names[:k], g.iter) for k, g in enumerate(node.generators)], ctx=ast.Load())
+        return ast.copy_location(_call('listcomp', mk(names, node.elt), its), node)
 
 
 def assigned_names(nodes):
@@ -872,6 +912,8 @@ class VC:
 
     def loop_entry(self, label, live):
         spec = self.loops[label]
+        if spec.indexed:
+            cur().ghost['idx:' + label] = tm.const(0, INT)
         if spec.entry:
             for name, cl in spec.entry(live, cur()).items():
                 check('%s/at-loop-entry/%s' % (label, name), cl)
@@ -888,6 +930,10 @@ class VC:
             ctx.ghost[('first', label)] = True
             return tuple(live.get(k) for k in names)
         ctx.ghost[('first', label)] = False
+        if spec.indexed:
+            gi = ctx.newvar('i', INT)
+            assume(gi >= 0)
+            ctx.ghost['idx:' + label] = gi
         fresh = spec.havoc(live, names, ctx)
         new = dict(live)
         new.update(fresh)
@@ -906,6 +952,10 @@ class VC:
         if spec.peel and ctx.ghost.get(('first', label)):
             assume(tm.lift(N) > 0)
             return tm.const(0, INT)
+        if spec.indexed:
+            i = ctx.ghost['idx:' + label]
+            assume(i < tm.lift(N))
+            return i
         i = ctx.newvar('i', INT)
         lo = 1 if spec.peel else 0
         assume(tm.and_(i >= lo, i < tm.lift(N)))
@@ -919,11 +969,15 @@ class VC:
             return tm.const(-1, INT)
         if spec.peel:
             assume(tm.lift(N) >= 1)
+        if spec.indexed:
+            assume(ctx.ghost['idx:' + label] >= tm.lift(N))
         # the loop ran to completion; the target keeps its last value N-1
         return tm.sub(tm.lift(N), tm.const(1, INT)) if isinstance(N, T) else N - 1
 
     def loop_step(self, label, live):
         spec = self.loops[label]
+        if spec.indexed:
+            cur().ghost['idx:' + label] = cur().ghost['idx:' + label] + 1
         for name, cl in spec.inv(live, cur()).items():
             check('%s/loop-invariant/step/%s' % (label, name), cl)
 
@@ -942,6 +996,14 @@ class VC:
             return it.element(i)
         for x in it:
             return x
+
+    def newlist(self):
+        from . import glist
+        return glist.GList.empty()
+
+    def listcomp(self, elt, iters):
+        from . import glist
+        return glist.listcomp(elt, iters)
 
     def hyp(self, label, value):
         f = self.hypotheses.get(label)
@@ -968,7 +1030,8 @@ class VC:
 
 
 class LoopSpec:
-    def __init__(self, inv, havoc, after_havoc=None, peel=False, entry=None):
+    def __init__(self, inv, havoc, after_havoc=None, peel=False, entry=None, indexed=False):
+        self.indexed = indexed      # ghost loop counter in ctx.ghost['idx:<label>'] (0 at entry, arbitrary after havoc, +1 before the step check, >= N at exit)
         self.entry = entry          # (live dict, ctx) -> clauses checked at loop entry only (not part of the invariant)
         self.inv = inv              # (live dict, ctx) -> OrderedDict name -> term
         self.havoc = havoc          # (live dict, names, ctx) -> dict name -> fresh value
@@ -980,7 +1043,7 @@ class LoopSpec:
 # loader
 # ---------------------------------------------------------------------------
 
-def load_module(relpath, cuts=(), overrides=None, modname=None, tag=(), hyps=(), sites=(), optional_cuts=()):
+def load_module(relpath, cuts=(), overrides=None, modname=None, tag=(), hyps=(), sites=(), optional_cuts=(), lists=False):
     """parse /repo/<relpath>, cut the loops in ``cuts`` ({(qualname, ordinal)}), exec with shims.
     Returns (namespace dict, vc object, info dict)."""
     install_sksparse_stub()
@@ -989,7 +1052,13 @@ def load_module(relpath, cuts=(), overrides=None, modname=None, tag=(), hyps=(),
         src = f.read()
     tree = ast.parse(src, filename=path)
     lc = LoopCut(set(cuts) | set(optional_cuts), tag, hyps, sites)
-    tree = lc.visit(tree)
+    MUTATING_METHODS[0] = bool(lists)
+    try:
+        tree = lc.visit(tree)
+    finally:
+        MUTATING_METHODS[0] = False
+    if lists:
+        tree = _ListForms().visit(tree)
     ast.fix_missing_locations(tree)
     missing = set(cuts) - lc.done        # optional cuts may be absent
     if missing:
